@@ -23,6 +23,12 @@ CLAIMED = {
         "note": "Trusted: z3, symx, FFTStub (scipy.fft shape rules conformance-tested on 216 shapes; DFT linearity), exact-real model of float32. Bounds: shapes from {1..6}^3 (10 quick / 216 thorough), orders 1..3, filters on <=36-voxel images.",
         "ref": "DESIGN.md §4 C16",
     },
+    "C06": {
+        "text": "Candidate ordering (rotation-major, template-minor) established by running the real candidate builder with recording stubs (T,K<=3/4); align()/fit() run with symbolic scores: on every path the winner is the first arg-max, shift/score pass through, the reported quaternion is that of rotation winner//T; "
+                "index arithmetic decided with a symbolic winner for all T,K<=8/24; loader and loader-group label columns equal winner%T (list and mapping inputs); normalize_rotations shapes/content.",
+        "note": "Trusted: z3, symx, SymRotation quaternion algebra, real dask.delayed (synchronous), real polars with Object columns. Not covered: which candidate scores best on real data; uint8 wrap-around beyond 256 candidates.",
+        "ref": "DESIGN.md §4 C06",
+    },
 }
 
 NOT_APPLICABLE = {
